@@ -597,11 +597,15 @@ def tree_oracle(trial, obs, handed):
 # ---------------------------------------------------------------------------------------------- tee-rejoin: source -> b branches -> join (C03 stage C, rejoins)
 
 def gen_rejoin_trial(rng):
-    """source 0, branches 1..b (each subscribed to the source only, each publishing its OWN topic names), join b+1 subscribed to all branches, optional
-    sink; no restarts.  In about half of the trials no branch returns None (hypotheses of C03_net_rejoin_composition); in the other half the branches
-    SKIP (None / callable -> None), keyed on the CONTENT of the handed set (`cskip` / `cdnone`: hypothesis BranchCntFree of C03_net_rejoin_common_ids -
-    a skip keyed on the call counter would make the set of common frames depend on the schedule, because a fast-forwarded branch is not handed every
-    source frame), with schedules that let one branch fall behind (stall + clock jump: eviction at the source, fast-forward by the join's requests)"""
+    """source 0, b = 2-3 branches, each a CHAIN of 1-3 relays (branch-major numbering: the first relay of a branch subscribed to the source, every other one to
+    its predecessor; the LAST relay of a branch publishes its OWN topic names), the join subscribed to the last relay of every branch, optional sink; no
+    restarts.  In 45 % of the trials every branch is one relay (`rejoinTopo`: C03_net_rejoin_composition / C03_net_rejoin_common_ids, proved); the others are
+    `rejoinLongTopo`-like with branches of DIFFERENT lengths (statement C03_net_rejoin_long_common_ids: tested on the model and here, not proved).  In about
+    half of the trials no relay returns None; in the other half relays - the first, a middle or the last one of a branch - SKIP (None / callable -> None),
+    keyed on the CONTENT of the handed set (`cskip` / `cdnone`: BranchCntFree / RelayCntFree - a skip keyed on the call counter would make the set of common
+    frames depend on the schedule, because a fast-forwarded relay is not handed every frame), with schedules that let one relay (any position) fall behind
+    (stall + clock jump: eviction at its publisher, fast-forward by the requests of its consumer - for a relay in the middle of a branch that is the next relay
+    of the branch, itself fast-forwarded by the join)"""
     b = rng.randint(2, 3)
     ups, behs = [[]], []
     sb = {'kind': 'src', 'topics': rng.choice([['main'], ['main'], ['main', '_h'], ['main', 'aux']])}
@@ -609,32 +613,48 @@ def gen_rejoin_trial(rng):
     if rng.random() < 0.2: sb['defer'] = True
     if rng.random() < 0.15: sb['dnone'] = [rng.randrange(6)]
     behs.append(sb)
+    # branch lengths 1-3 (C03_net_rejoin_long_common_ids, `rejoinLongTopo`): branch-major numbering, every relay of a branch subscribed to its predecessor,
+    # the first one to the source; in 45 % of the trials all branches have ONE relay (the proved topology `rejoinTopo`)
+    long_ = rng.random() < 0.55
+    blen = [rng.randint(1, 3) if long_ else 1 for _ in range(b)]
+    if long_ and max(blen) == 1: blen[rng.randrange(b)] = rng.randint(2, 3)
+    lasts, relays = [], []
     for k in range(1, b + 1):
-        ups.append([0])
+        plain = 'aux' not in sb['topics']          # only 'main' (and hidden topics) reaches the last relay
+        for m in range(blen[k - 1] - 1):           # the relays ABOVE the last one: any names (pass / rename / sum / hide a topic), may defer
+            up = [0] if m == 0 else [len(ups) - 1]
+            r = rng.random()
+            if r < 0.4: mb = {'kind': 'pass'}
+            elif r < 0.6: mb = {'kind': 'sum', 'name': 'main'}
+            elif r < 0.8: mb = {'kind': 'rename', 'frm': 'main', 'to': f'm{k}'}; plain = False
+            else: mb = {'kind': 'rename', 'frm': 'aux', 'to': '_aux'}          # hides `aux` if it is there
+            if rng.random() < 0.25: mb['defer'] = True
+            ups.append(up); behs.append(mb); relays.append(len(ups) - 1)
         r = rng.random()
         bb = {'kind': 'rename', 'frm': 'main', 'to': f'b{k}'} if r < 0.6 else {'kind': 'sum', 'name': f's{k}'}
-        if bb['kind'] == 'rename' and 'aux' in sb['topics']: bb = {'kind': 'sum', 'name': f's{k}'}     # 'aux' through two branches would be a duplicate topic at the join
+        if bb['kind'] == 'rename' and not plain: bb = {'kind': 'sum', 'name': f's{k}'}     # a foreign name through two branches would be a duplicate topic at the join: the LAST relay owns its names
         if rng.random() < 0.25: bb['empty'] = sorted(rng.sample(range(8), rng.randint(1, 2)))           # {} is allowed: an empty contribution
         if rng.random() < 0.25: bb['defer'] = True
-        behs.append(bb)
+        ups.append([0] if blen[k - 1] == 1 else [len(ups) - 1]); behs.append(bb); lasts.append(len(ups) - 1); relays.append(len(ups) - 1)
     skipping = rng.random() < 0.5
     if skipping:
-        for k in range(1, b + 1): behs[k].pop('empty', None)      # `empty` is keyed on the call counter: not for branches that may be fast-forwarded
-        for k in rng.sample(range(1, b + 1), rng.randint(1, b)):
-            if rng.random() < 0.8: behs[k]['cskip'] = sorted(rng.sample(range(8), rng.randint(1, 4)))
+        for k in relays: behs[k].pop('empty', None)      # `empty` is keyed on the call counter: not for relays that may be fast-forwarded
+        for k in rng.sample(relays, rng.randint(1, min(len(relays), b + 1))):      # ANY relay of a branch may skip, keyed on the content
+            if rng.random() < 0.8: behs[k]['cskip'] = sorted(rng.sample(range(8), rng.randint(1, 4 if len(relays) <= b else 2)))
             if rng.random() < 0.35 or 'cskip' not in behs[k]: behs[k]['cdnone'] = sorted(rng.sample(range(8), rng.randint(1, 2)))
-    ups.append(list(range(1, b + 1)))
+    J = len(ups)
+    ups.append(lasts)
     jb = rng.choice([{'kind': 'pass'}, {'kind': 'sum', 'name': 'main'}, {'kind': 'pass', 'skip': [rng.randrange(5)]},
                      {'kind': 'sum', 'name': 'main', 'skip': sorted({rng.randrange(6), rng.randrange(6)})}, {'kind': 'pass', 'defer': True},
                      {'kind': 'add', 'name': '_xj', 'dnone': [rng.randrange(5)]}, {'kind': 'add', 'name': 'xj', 'empty': [rng.randrange(5)]}])
     behs.append(jb)
     if rng.random() < 0.6:      # a sink below the join (C03_net_rejoin_sink_composition): the join publishes under the ids it was handed, the sink throttles it
-        ups.append([b + 1]); behs.append({'kind': 'pass'})
+        ups.append([J]); behs.append({'kind': 'pass'})
     topo = {'family': 'teerejoin', 'ups': ups, 'behs': behs}
     L = len(ups)
     style = rng.choice(['flow', 'flow', 'loose', 'chaos', 'late'] + (['stall', 'stall', 'stall'] if skipping else []))
-    late = rng.randrange(1, b + 1)
-    nrounds = rng.randint(10, 24) + (10 if style == 'stall' else 0)
+    late = rng.choice(relays)          # ANY relay: the first, a middle or the last one of a branch
+    nrounds = rng.randint(10, 24) + (10 if style == 'stall' else 0) + (6 if long_ else 0)
     stall_from = rng.randint(4, 9); stall_len = rng.randint(3, 8)
     evs, t = [], 1000
     for r_ in range(nrounds):
@@ -684,9 +704,15 @@ def rejoin_reference(topo, nsrc):
         vis = {t: f for t, f in d.items() if not t.startswith('_')}
         cur = []
         for br in topo['ups'][J]:
-            r = norm(procs[br](vis, n, 0))
-            if r is None: cur = None; break          # a branch skips this frame: not a common frame
-            cur += [(t, f) for t, f in r.items() if not t.startswith('_')]
+            path, x = [], br                         # the relays of the branch, source side first (branches longer than one relay: literal composition along the branch)
+            while x != 0: path.insert(0, x); x = topo['ups'][x][0]
+            r = vis
+            for x in path:
+                r = norm(procs[x](r, n, 0))
+                if r is None: break                  # a relay of the branch skips this frame: not a common frame
+                r = {t: f for t, f in r.items() if not t.startswith('_')}
+            if r is None: cur = None; break
+            cur += list(r.items())
         if cur is not None: common.append((k, cur))
     ref = [[k, [[t, f.data['c']] for t, f in cur]] for k, cur in common]
     sink = None
@@ -814,6 +840,27 @@ def rejoin_ffwd_witness():
         t += 100; evs += rnd([0, 1, 3], t)                      # the source evicts branch 2 and runs ahead
     for _ in range(6):
         t += 100; evs += rnd([0, 1, 2, 3], t)
+    return {'topo': topo, 'evs': evs}
+
+
+def rejoin_long_ffwd_witness():
+    """branches of TWO relays, a relay in the MIDDLE of a branch is fast-forwarded (the schedule `lSched` of OFProps/C03RejoinLong.lean): 0 -> 1 -> 2 -> 5 and
+    0 -> 3 -> 4 -> 5; relay 3 drops the source frames 2 .. 5 (content-keyed); after five lock-step rounds relay 1 takes frames but no longer sends, the clock jumps
+    beyond the connection time-out, the source evicts relay 1 and runs ahead with branch 2 alone; the join adopts id 6 from relay 4 and asks relay 2 for 5; branch 1
+    comes back, relay 2 BEFORE relay 1: relay 2 (holding frame 2) is fast-forwarded to 6 and asks relay 1 for 5, relay 1 (holding frame 4) is fast-forwarded to 6
+    and its receiver discards source frame 5 unprocessed.  The join must be handed exactly the common ids 0, 1, 6, 7, 8, 9, relay 1 the ids 0, 1, 2, 3, 4, 6, 7, ...,
+    relay 2 the ids 0, 1, 2, 6, 7, ..."""
+    topo = {'family': 'teerejoin', 'ups': [[], [0], [1], [0], [3], [2, 4]],
+            'behs': [{'kind': 'src', 'topics': ['main']}, {'kind': 'sum', 'name': 'm1'}, {'kind': 'sum', 'name': 's1'},
+                     {'kind': 'rename', 'frm': 'main', 'to': 'm3', 'cskip': [2, 3, 4, 5]}, {'kind': 'rename', 'frm': 'm3', 'to': 'b2'}, {'kind': 'pass'}]}
+    evs = []
+    def rnd(nodes, t, nosend=()):
+        return [e for i in nodes for e in [{'k': 'recv', 'i': i}] + ([{'k': 'send', 'i': i, 't': t}] if i not in nosend else [])]
+    for t in (1100, 1200, 1300, 1400, 1500): evs += rnd([0, 1, 2, 3, 4, 5], t)
+    for t in (1600, 1700): evs += rnd([0, 1, 2, 3, 4, 5], t, nosend=(1,))      # relay 1 takes frames and keeps one
+    for t in (7800, 7900, 8000, 8100, 8200, 8300): evs += rnd([0, 3, 4, 5], t)  # the source evicts relay 1 and runs ahead with branch 2
+    for t in (9000, 9100): evs += rnd([0, 2, 1, 3, 4, 5], t)                    # relay 2 first: fast-forwarded by the join, it then fast-forwards relay 1
+    for t in (9200, 9300, 9400, 9500, 9600, 9700): evs += rnd([0, 1, 2, 3, 4, 5], t)
     return {'topo': topo, 'evs': evs}
 
 
